@@ -930,7 +930,10 @@ class SyncState:  # pylint: disable=too-many-instance-attributes, too-many-publi
 
     def lookup_deletion(self, content_hash, side):
         for ent in self.get_all():
-            if ent[side].hash == content_hash and ent.is_deletion(side):
+            # files only, as in lookup_creation: folders have no content hash (None == None is not a match)
+            if ent[side].otype != FILE or ent[side].hash != content_hash:
+                continue
+            if ent.is_deletion(side):
                 return ent
         return None
 
